@@ -1,18 +1,30 @@
 (* Properties_C02.v -- property C02: Descriptor readiness is never lost: no sleeping on a wanted, ready fd.  Statements only.
    Every theorem quantifies over ALL well-formed scenarios: all handler scripts, all kernel behaviours the scenario
-   language can express, all four poll methods, all fault sets, any wait limit.
-   STATUS: the full statement of this property on the core model is `mon_C02 (run_scenario sc) = true`
-   (see Properties_C02.v.draft); the theorems below are the monitor clauses already proved (named _partial);
-   the remaining clauses (201 202 203 204, 1104) are checked on every implementation AND model trace by the extracted monitor
-   while their proofs are being completed. *)
-From Coq Require Import List ZArith Bool.
-From Ivv Require Import Core.Kernel Core.CoreTypes Core.CoreFd Core.CoreModel Core.Monitors Core.CoreSpec
-  Core.CoreRel Core.CoreCodes Base.LeafLink.
+   language can express (conditions changed at any point, ready order rotations, external posts), all four poll
+   methods, all fault sets (EINTR at any wait / epoll_ctl, missing system calls), any wait limit. *)
+From Coq Require Import List ZArith Bool Lia.
+From Ivv Require Import Core.Kernel Core.CoreTypes Core.CoreFd Core.CoreModel Core.Monitors Core.GuardMon Core.CoreSpec
+  Core.CoreInv Core.CoreRel Core.CorePhase2Fd Core.CoreExamples Base.LeafLink.
 Import ListNotations.
 Local Open Scope Z_scope.
 
-(* the event masks and the wanted-band computation used by the model are those of the C functions, which are
-   re-translated from the current source by gen/c2gallina.py on every run *)
+Definition no_code (codes : list Z) (tr : list Z) : Prop := forall c, In c tr -> ~ In c codes.
+
+(* the trace monitor of C02: at every kernel wait the kernel-side interest of the user descriptors equals the bands
+   with handlers (201); a wanted ready descriptor never lets the loop sleep (202); it is unreported only when the
+   batch is full (203); everything reported is dispatched unless cleared/unregistered earlier in the iteration (204) *)
+Theorem C02_readiness_never_lost :
+  forall sc, wf_scenario sc -> mon_C02 (run_scenario sc) = true.
+Proof. exact core_mon_C02. Qed.
+Print Assumptions C02_readiness_never_lost.
+
+(* no kernel interest entry survives the unregistration of its descriptor object (guard monitor clause 1104) *)
+Theorem C02_no_stale_kernel_interest :
+  forall sc, wf_scenario sc -> no_code [1104] (gmon_fails sc (run_scenario sc)).
+Proof. exact core_gmon_1104. Qed.
+Print Assumptions C02_no_stale_kernel_interest.
+
+(* the event masks handed to the kernel are those of the translated C functions (regenerated from the source) *)
 Theorem C02_epoll_mask_is_the_code :
   forall bits, Ivv.Gen.Leaf.epoll_bits_to_poll_mask bits = recode_epoll (epoll_mask bits).
 Proof. exact leaf_epoll_mask. Qed.
@@ -28,9 +40,13 @@ Theorem C02_wanted_is_the_code :
 Proof. exact leaf_recompute_wanted. Qed.
 Print Assumptions C02_wanted_is_the_code.
 
-(* handlers are called through the pointer currently set (so a handler installed, removed and re-installed is the one called) *)
-Theorem C02_current_handler_partial :
-  forall sc, wf_scenario sc -> no_code [301] (mon_fails (run_scenario sc)).
-Proof. intros sc Hwf. eapply no_code_sub; [|exact (codes_handlers sc Hwf)]. simpl; intros c Hc; intuition. Qed.
-Print Assumptions C02_current_handler_partial.
-
+(* non-vacuity: a well-formed run on every poll method in which a descriptor becomes readable during a wait, is
+   reported and dispatched, and all monitors (incl. 201-204, 1104) are silent *)
+Example C02_nonvacuous :
+  forall be, In be [0; 1; 2; 3] ->
+    wf_scenario (ex_all be) /\ In (TCallFd 0 0 1 7) (run_scenario (ex_all be)) /\
+    mon_fails (run_scenario (ex_all be)) = [] /\ gmon_fails (ex_all be) (run_scenario (ex_all be)) = [].
+Proof.
+  intros be H. split; [apply ex_all_wf; cbn [In] in H; intuition lia|].
+  pose proof (ex_all_runs be H) as R. cbv zeta in R. tauto.
+Qed.
